@@ -811,10 +811,34 @@ def inclusion_distance(const, blocks, dX, tol, maxiter=4000):
         free = ~fixed
         if not free.any():
             return float(np.sqrt(np.sum(cc * cc)))
-        res = lsq_linear(B[:, free], -cc, bounds=(lo[free], hi[free]),
-                         method='bvls', tol=1e-14, max_iter=400)
-        r = B[:, free] @ res.x + cc
-        return float(np.sqrt(np.sum(r * r)))
+        Bf, lf, hf = B[:, free], lo[free], hi[free]
+        # every feasible point bounds the distance from above, so the best
+        # of several solvers is taken (BVLS alone can stop early on
+        # rank-deficient systems with unbounded variables)
+        cands = [np.clip(np.zeros(Bf.shape[1]), lf, hf)]
+        if np.all(np.isinf(lf)) and np.all(np.isinf(hf)):
+            cands.append(np.linalg.lstsq(Bf, -cc, rcond=None)[0])
+        else:
+            for method in ('bvls', 'trf'):
+                try:
+                    res = lsq_linear(Bf, -cc, bounds=(lf, hf), method=method,
+                                     tol=1e-14, max_iter=400)
+                    cands.append(np.clip(res.x, lf, hf))
+                except Exception:  # noqa
+                    pass
+            # unbounded variables: polish by an unconstrained solve for them
+            unb = np.isinf(lf) & np.isinf(hf)
+            if unb.any() and len(cands) > 1:
+                v = cands[-1].copy()
+                v[unb] = np.linalg.lstsq(
+                    Bf[:, unb], -(cc + Bf[:, ~unb] @ v[~unb]),
+                    rcond=None)[0]
+                cands.append(v)
+        best = np.inf
+        for v in cands:
+            r = Bf @ v + cc
+            best = min(best, float(np.sqrt(np.sum(r * r))))
+        return best
 
     if not balls:
         return solve_box(lo, hi), True
